@@ -1,6 +1,6 @@
 use crate::http_codec::HttpCodec;
 use crate::shutdown::Shutdown;
-use crate::{log_id, log_utils};
+use crate::{log_id, log_utils, net_utils};
 use std::sync::{Arc, Mutex};
 use std::time::Duration;
 
@@ -22,7 +22,7 @@ pub(crate) async fn listen(
                     trace,
                     log_id,
                     "Received request: {:?}",
-                    x.request().request()
+                    net_utils::scrub_request(x.request().request())
                 );
                 if let Err(e) = x.split().1.send_ok_response(true) {
                     log_id!(debug, log_id, "Failed to send ping response: {}", e);
